@@ -106,6 +106,7 @@ pub struct Gen<'a> {
     pub nlocs: u32,
     pub nusers: u32,
     pub monitors: bool,
+    pub mon: crate::monitors::MonState,
 }
 
 impl<'a> Gen<'a> {
@@ -135,29 +136,38 @@ impl<'a> Gen<'a> {
 
     pub fn run_op(&mut self, op: HOp) -> Outcome {
         // requests see a fresh node table as well
-        let tables = match &op {
+        let (send, get) = match &op {
             HOp::Add { .. } => {
                 let (s, g) = self.world.tables(&mut self.rng);
                 self.sys.set_tables(&s, &g);
-                Some(s)
+                (s, g)
             }
-            HOp::Conn { send, .. } => Some(send.clone()),
-            _ => None,
+            HOp::Conn { send, get, .. } => (send.clone(), get.clone()),
+            _ => (BTreeMap::new(), BTreeMap::new()),
         };
         let (out, log) = self.sys.exec(&op, self.rep);
-        if let Some(s) = &tables {
-            self.world.apply_rpcs(&log, s);
-        }
+        self.world.apply_rpcs(&log, &send);
         self.rep.count(&format!("op:{}", op_name(&op)));
         for (m, _) in log.iter() {
             self.rep.count(&format!("rpc:{m}"));
         }
         self.world.shape.push(op_letter(&op, &out));
-        if self.monitors {
-            crate::monitors::after_op(self, &op, &out, &log);
+        if let (HOp::Add { user, loc, blob, .. }, Outcome::Accepted { .. }) = (&op, &out) {
+            self.world.accepted.insert((*user, *loc), blob.clone());
         }
-        if !matches!(op, HOp::Dump | HOp::Get { .. } | HOp::Sub { .. }) && !self.sys.dead {
-            self.sys.exec(&HOp::Dump, self.rep);
+        if self.sys.dead {
+            if self.monitors {
+                crate::monitors::after_op(self, &op, &out, &log, &send, &get, DbRow::default());
+            }
+            return out;
+        }
+        let cur = self.sys.read_db();
+        if !matches!(op, HOp::Dump | HOp::Get { .. } | HOp::Sub { .. }) {
+            let d = self.sys.dump_from(&cur);
+            self.rep.line("tw dump", &d);
+        }
+        if self.monitors {
+            crate::monitors::after_op(self, &op, &out, &log, &send, &get, cur);
         }
         out
     }
@@ -377,7 +387,7 @@ pub fn run(seed: u64, thorough: bool, rep: &mut Report) {
         rep.begin_case(&format!("hist-{seed}-{c}"));
         let sys = TowerSys::boot(cfg, height, &boot, rep);
         let nops = rng.range(15, if thorough { 140 } else { 70 }) as usize;
-        let mut g = Gen { rng, sys, world: World::new(), rep: &mut *rep, nlocs: 4, nusers: 3, monitors: true };
+        let mut g = Gen { rng, sys, world: World::new(), rep: &mut *rep, nlocs: 4, nusers: 3, monitors: true, mon: Default::default() };
         g.history(nops, thorough);
         let shape = g.world.shape.clone();
         let nontrivial = shape.contains('A') && shape.contains('C');
